@@ -18,7 +18,8 @@ def _small(args):
         if row['v1'] == row['v2']:
             vals = vals[:1]
         o = obs_infer(fx, np, [pid], vals, row['sa'], row['given'], row['nw'], row['nf'], row['ni'], row['cap'],
-                      carrier='scalar' if len(vals) == 1 else ['list', 'ndarray'][(row['v1'] + row['v2']) % 2])
+                      carrier='scalar' if len(vals) == 1 else ['list', 'ndarray'][(row['v1'] + row['v2']) % 2],
+                      prior=((row['v1'] + 3 * row['v2']) % 5 == 0))
         o['nat'] = True
         out.append(o)
     return out
@@ -63,7 +64,36 @@ def _wide(args):
             ni = ineed + rng.randint(0, 2)
             nw = min(64, ni + sg + fneed + rng.randint(0, 2))
         carrier = 'scalar' if n == 1 else rng.choice(['list', 'ndarray', 'tuple'])
-        out.append(obs_infer(fx, np, [pid], vals, sa, given, nw, nf, ni, 64, carrier=carrier))
+        out.append(obs_infer(fx, np, [pid], vals, sa, given, nw, nf, ni, 64, carrier=carrier, prior=rng.random() < 0.3))
+        # the same through narrow NumPy carriers, when every value is exactly representable in the dtype
+        for nt in ('float32', 'float16', 'int32', 'int16', 'int8'):
+            tp = getattr(np, nt)
+            try:
+                if np.issubdtype(tp, np.integer):
+                    ok = all(v.denominator == 1 and np.iinfo(tp).min <= v.numerator <= np.iinfo(tp).max for v in vals)
+                else:
+                    ok = all(np.isfinite(tp(float(v))) and F(float(tp(float(v)))) == v for v in vals)
+            except (OverflowError, ValueError):
+                ok = False
+            if ok and rng.random() < 0.5:
+                out.append(obs_infer(fx, np, [pid], vals, sa, given, nw, nf, ni, 64, carrier='np.' + nt))
+    # directed: powers of two in narrow float carriers; values just beyond a power of two with a word that is too short
+    for _ in range(count // 2 + 1):
+        k = rng.randint(0, 38)
+        sgn = rng.choice([-1, 1])
+        v = F(sgn * (1 << k))
+        for nt in ('float32', 'float16', 'float64'):
+            if nt == 'float16' and k > 15:
+                continue
+            out.append(obs_infer(fx, np, [pid], [v], 'none', 'none', NONE, NONE, NONE, 64, carrier='np.' + nt))
+            out.append(obs_infer(fx, np, [pid], [v, F(1)], 'none', 'none', NONE, NONE, NONE, 64, carrier='np.' + nt))
+        j = rng.randint(1, 20)
+        k2 = rng.randint(0, 12)
+        v2 = F(sgn) * (F(1 << k2) + F(1, 1 << j))
+        sa = rng.choice(['none', 'T']) if sgn < 0 else rng.choice(['none', 'T', 'F'])
+        for nw in {k2 + 1 + (0 if sa == 'F' else 1) + d for d in (0, 1, 2, 3, j // 2)}:
+            if 1 <= nw <= 64:
+                out.append(obs_infer(fx, np, [pid], [v2], sa, 'w', nw, NONE, NONE, 64, carrier='scalar'))
     # the capped case: random non-dyadic-looking doubles with the real cap 64
     for _ in range(count // 4 + 1):
         vals = [F(rng.uniform(-1000, 1000)) if rng.random() < 0.7 else F(rng.random() * 2 ** rng.randint(-30, 40)) for _ in range(rng.choice([1, 1, 3]))]
